@@ -83,6 +83,8 @@ class RustMagicNumberAnalyzer(RustBaseAnalyzer):
         try:
             if node.type == "float_literal":
                 return float(cleaned)
+            if cleaned.isdigit():
+                return int(cleaned, 10)  # Decimal body: Rust allows leading zeros (007)
             return int(cleaned, 0)  # Handles hex, octal, binary
         except (ValueError, TypeError):
             return None
@@ -114,6 +116,8 @@ class RustMagicNumberAnalyzer(RustBaseAnalyzer):
         )
         for suffix in suffixes:
             if text.endswith(suffix):
+                if suffix.startswith("f") and text.startswith("0x"):
+                    continue  # In a hex literal these characters are digits (0x1f32), not a type suffix
                 return text[: -len(suffix)]
         return text
 
